@@ -19,6 +19,10 @@ use base::refmodel as rf;
 pub enum Act {
     Feed(usize),
     Reinst,
+    /// `set_block_pos(p)` on a seekable core (position relative to the IV of the current instance)
+    SetPos(usize),
+    /// continue with a clone; the original is dropped
+    Dup,
 }
 
 enum Obj {
@@ -40,6 +44,24 @@ impl Obj {
         match self {
             Obj::Bm(b) => b.iv_state(),
             Obj::Core(c) => c.iv_state(),
+        }
+    }
+    fn dup(&self) -> Option<Obj> {
+        match self {
+            Obj::Bm(b) => Some(Obj::Bm(b.dup())),
+            Obj::Core(c) => c.dup().map(Obj::Core),
+        }
+    }
+    fn set_pos(&mut self, p: u128) -> bool {
+        match self {
+            Obj::Bm(_) => false,
+            Obj::Core(c) => c.set_block_pos(p),
+        }
+    }
+    fn block_pos(&self) -> Option<u128> {
+        match self {
+            Obj::Bm(_) => None,
+            Obj::Core(c) => c.get_block_pos(),
         }
     }
 }
@@ -77,6 +99,16 @@ impl Machine for ResumeMachine<'_> {
         if cuts < self.max_cuts && hist.last() != Some(&Act::Reinst) {
             v.push(Act::Reinst);
         }
+        // mixed histories: at most one clone and two repositionings per history
+        let clonable = self.core.map(|c| c.clonable).unwrap_or(true);
+        if clonable && !hist.contains(&Act::Dup) {
+            v.push(Act::Dup);
+        }
+        if self.core.map(|c| c.seekable).unwrap_or(false) && hist.iter().filter(|a| matches!(a, Act::SetPos(_))).count() < 2 && !matches!(hist.last(), Some(Act::SetPos(_))) {
+            for p in [0usize, 1, crate::util::par_of(self.cfg) + 1] {
+                v.push(Act::SetPos(p));
+            }
+        }
         for &s in &self.sizes {
             // two empty calls in a row add nothing new
             if s == 0 && hist.last() == Some(&Act::Feed(0)) {
@@ -92,9 +124,25 @@ impl Machine for ResumeMachine<'_> {
         let g = self.gran;
         let mut obj = self.make(self.iv);
         let mut off = 0usize;
+        // absolute block index at which the current instance was created
+        let mut base = 0usize;
         for (i, a) in hist.iter().enumerate() {
             match a {
+                Act::SetPos(p) => {
+                    if base + p + 2 > self.nmax {
+                        return Ok(None);
+                    }
+                    ensure!(obj.set_pos(*p as u128), "MACHINERY", "harness: set_block_pos");
+                    off = base + p;
+                }
+                Act::Dup => match obj.dup() {
+                    Some(d) => obj = d,
+                    None => return Ok(None),
+                },
                 Act::Feed(n) => {
+                    if off + n > self.nmax {
+                        return Ok(None);
+                    }
                     let mut buf = self.data[off * g..(off + n) * g].to_vec();
                     obj.feed(&mut buf);
                     let w = &self.want.out[off * g..(off + n) * g];
@@ -105,7 +153,11 @@ impl Machine for ResumeMachine<'_> {
                     let s = obj.state();
                     ensure!(s == self.want.states[off], format!("exported_value/{}", self.name), "{} history {:?}: iv_state() after {} blocks is {} but the public chaining value is {}", self.ty, hist, off, short(&s), short(&self.want.states[off]));
                     obj = self.make(&s);
+                    base = off;
                 }
+            }
+            if let Some(bp) = obj.block_pos() {
+                ensure!(bp == (off - base) as u128, format!("block_position/{}", self.name), "{} history {:?}: get_block_pos() after step {} is {} but the instance has produced / been positioned at {} blocks since it was created", self.ty, hist, i + 1, bp, off - base);
             }
         }
         let s = obj.state();
